@@ -75,11 +75,21 @@ func (s *Src) skeleton(fd *ast.FuncDecl) ([]string, error) {
 		return nil, err
 	}
 	var out []string
+	skip := 0 // inside an `if verifOn { … }` block (compiled away without the build tag): not part of the skeleton
 	for _, ln := range strings.Split(buf.String(), "\n") {
 		ln = strings.Join(strings.Fields(ln), " ")
-		if ln != "" {
-			out = append(out, ln)
+		if ln == "" {
+			continue
 		}
+		if skip > 0 {
+			skip += strings.Count(ln, "{") - strings.Count(ln, "}")
+			continue
+		}
+		if ln == "if verifOn {" {
+			skip = 1
+			continue
+		}
+		out = append(out, ln)
 	}
 	return out, nil
 }
